@@ -301,6 +301,13 @@ fn decode_url(t: &mut Tape) -> UrlCase {
     let userinfo = if t.chance(1, 6) { Some(t.choose(&["user", "user:pass", "u%40x", "a:b:c", "üser", "example.org", "x:"]).to_string()) } else { None };
     let port = if t.chance(1, 5) { Some(t.choose(&[80u16, 443, 8080, 1, 65535])) } else { None };
     let tail = format!("{}{}{}", gen::path(t), if t.chance(1, 3) { format!("?{}", gen::query(t)) } else { String::new() }, if t.chance(1, 6) { "#frag@x:1/".to_string() } else { String::new() });
+    let special = ["http", "https", "ws", "wss", "ftp", "gopher"].contains(&scheme.to_ascii_lowercase().as_str());
+    let tail = if special && userinfo.is_none() && t.chance(1, 12) {
+        // on special schemes a backslash ends the authority like '/': an '@' behind it is path text
+        format!("{}{}", t.choose(&["\\@evil.net/x.js", "\\a@b/", "\\\\@x", "\\x/y@z?q=@"]), tail)
+    } else {
+        tail
+    };
     let (source, source_reg) = match t.pick(10) {
         0 => (String::new(), None),
         1 => (t.choose(&["not a url", "about:blank", "data:text/html,x", "//x.com/", "https://"]).to_string(), None),
@@ -330,7 +337,7 @@ fn decode_url(t: &mut Tape) -> UrlCase {
 }
 
 pub fn check(ctx: &mut Ctx) {
-    ctx.rule = "any: (url, source, type) strings spliced from URL punctuation (: / // @ [ ] \\ ? # %), control characters, non-ASCII, scheme names, truncated/mutated generated URLs and arbitrary code points; Request::new, Request::preparsed and queries on the result must not panic, and for every URL that parses: is_supported <=> scheme in {http,https,ws,wss}, ws/wss => Websocket, the reported hostname is ASCII and is the host component found by an independent scanner in the normalised URL. url: constructive URLs (10 scheme spellings, 1 in 10 a generated RFC 3986 scheme of up to 95 bytes, x optional userinfo x 38 curated hosts with known registrable domains incl. multi-label and wildcard public suffixes, IP literals, IDN x optional port x path/query/fragment; 1 case in 5 with 1-3 ASCII tab/LF/CR characters inserted anywhere in the URL, which URL parsing must ignore) with sources of the same / another registrable domain, absent or unparsable: hostname == expected punycoded host, third-party <=> registrable domains differ (or no usable source), scheme classification, and Request::preparsed(...) has equal public fields and equal verdicts/CSP on a 7-rule engine. Non-trivial (url) = userinfo/port/IDN/IP literal/multi-label suffix/deep subdomain, or a pair for which a 'last two labels' rule gives the wrong party.".into();
+    ctx.rule = "any: (url, source, type) strings spliced from URL punctuation (: / // @ [ ] \\ ? # %), control characters, non-ASCII, scheme names, truncated/mutated generated URLs and arbitrary code points; Request::new, Request::preparsed and queries on the result must not panic, and for every URL that parses: is_supported <=> scheme in {http,https,ws,wss}, ws/wss => Websocket, the reported hostname is ASCII and is the host component found by an independent scanner in the normalised URL. url: constructive URLs (10 scheme spellings, 1 in 10 a generated RFC 3986 scheme of up to 95 bytes, x optional userinfo x 38 curated hosts with known registrable domains incl. multi-label and wildcard public suffixes, IP literals, IDN x optional port x path/query/fragment (1 in 12 on special schemes starting with a backslash followed by '@' text); 1 case in 5 with 1-3 ASCII tab/LF/CR characters inserted anywhere in the URL, which URL parsing must ignore) with sources of the same / another registrable domain, absent or unparsable: hostname == expected punycoded host, third-party <=> registrable domains differ (or no usable source), scheme classification, and Request::preparsed(...) has equal public fields and equal verdicts/CSP on a 7-rule engine. Non-trivial (url) = userinfo/port/IDN/IP literal/multi-label suffix/deep subdomain, or a pair for which a 'last two labels' rule gives the wrong party.".into();
     ctx.assumptions = vec![
         "registrable domains of the curated hosts are fixed by construction from public-suffix facts (co.uk, com.au, github.io, blogspot.com, *.ck / !www.ck, *.kawasaki.jp / !city.kawasaki.jp, unknown TLD => last two labels, IP literal / single label => whole host)".into(),
         "expected punycode comes from the idna crate".into(),
